@@ -441,13 +441,18 @@ func Execute(sc *Scenario, sched *simrt.Schedule) (out *Outcome) {
 	simrt.Install(w)
 
 	// declaring the options is library code too: it runs under a step budget
+	// (the step budget only: a wall-clock backstop would make the verdict depend on
+	// how loaded the machine is)
 	w.Ticks, w.TickBudget = 0, 3000000
-	w.WallDeadline = time.Now().Add(8 * time.Second).UnixNano()
+	w.WallDeadline = 0
 	b := func() (b *Built) {
 		defer func() {
 			if r := recover(); r != nil {
 				switch r.(type) {
 				case simrt.BudgetPanic, simrt.HangPanic:
+					if bp, ok := r.(simrt.BudgetPanic); ok && bp.Wall {
+						panic(r) // cannot happen without a deadline; never a verdict
+					}
 					out.DeclHang = true
 					b = &Built{Spec: sc.Decl, ByPath: map[string]*BuiltOpt{}, Err: fmt.Errorf("declaring the options did not return (step budget exhausted)")}
 				default:
